@@ -234,7 +234,7 @@ def main():
         cov["coqchk"] = props["coqchk_tail"]
     if gen_info:
         cov["translated_from_source"] = dict(gen_info, note="definitions regenerated from /repo's working tree by translate/py2coq*.py; Gen = Model lemmas (coq/Equiv/Equiv*.v) re-checked before the Props file")
-        cov["trusted_base"] = TRUSTED_BASE + ["translate/py2coq.py, translate/py2coq_server.py (Python-ast to Gallina translators for the functions named in coq/Equiv/Equiv*.v, with their attribute/idiom tables and coq/Equiv/ServerGlue.v; fail-closed outside the subset)"]
+        cov["trusted_base"] = TRUSTED_BASE + ["translate/py2coq*.py, translate/tlsconf.py (Python-ast to Gallina translators for the functions named in coq/Equiv/Equiv*.v, with the attribute / call / idiom / skip tables listed in their docstrings and the hand-written coq/Equiv/*Glue.v, ServerLoop.v; fail-closed outside the subset)"]
     if res is not None:
         cov.update({
             "evaluations": res.evaluations, "distinct_nontrivial": len(res.nontrivial), "rule": res.rule,
